@@ -1017,7 +1017,31 @@ fn chaos_of(base: &AppSpec, seed: u64) -> AppSpec {
         }
     }
     // structural oddities (still type-correct Rust)
-    match next() % 9 {
+    match next() % 12 {
+        11 => {
+            spec.peel = true;
+            notes.push("a generic constructor whose input is a deeper instantiation of its own output (GP<T> needs &GP<GP<T>>)".into());
+        }
+        9 | 10 => {
+            // generic constructors instantiated with anything, whatever the lifecycles
+            let mut registered = vec![];
+            spec.walk_regs(&mut |r, _| {
+                if let Reg::Comp { idx } = r {
+                    registered.push(*idx);
+                }
+            });
+            let sites: Vec<usize> = registered.into_iter().filter(|c| matches!(spec.comps[*c].kind, CompKind::Handler | CompKind::Pre | CompKind::Post | CompKind::Wrap)).collect();
+            if !sites.is_empty() && !spec.types.is_empty() {
+                for _ in 0..(1 + next() % 3) {
+                    let c = sites[next() % sites.len()];
+                    let g = ((next() % 3) as u8, next() % spec.types.len());
+                    if !spec.comps[c].gens.contains(&g) {
+                        spec.comps[c].gens.push(g);
+                    }
+                }
+                notes.push("generic constructors instantiated with arbitrary types".into());
+            }
+        }
         7 | 8 => {
             // an error observer (or an error handler) that borrows a value sitting on a dependency cycle made of references only
             if let Some(p) = genr::plant(&spec, 1, next() as u16) {
@@ -1131,7 +1155,7 @@ fn verdict_check(mut chk: Check) -> ! {
     // recorded cases: the recorded spec is the variant, a trivial application is the base
     for s in &replay_specs {
         let mut trivial = AppSpec::default();
-        trivial.comps.push(CompSpec { kind: CompKind::Handler, inputs: vec![], fallible: None, is_async: false, route: Some(RouteSpec { methods: vec!["GET".into()], path: "/".into(), path_param_fields: vec![], bulk: false }), fw: vec![] });
+        trivial.comps.push(CompSpec { kind: CompKind::Handler, inputs: vec![], fallible: None, is_async: false, route: Some(RouteSpec { methods: vec!["GET".into()], path: "/".into(), path_param_fields: vec![], bulk: false }), fw: vec![], gens: vec![] });
         trivial.bp.push(Reg::Comp { idx: 0 });
         trivial.note = "trivial base".into();
         pairs.push((trivial, s.clone()));
